@@ -6,6 +6,7 @@ import (
 	"os"
 	"path/filepath"
 	"runtime"
+	"sort"
 	"strings"
 	"sync"
 	"testing"
@@ -153,6 +154,54 @@ func (s *c19Subject) reusedCollection(k int, want string) *evid.Fail {
 				run("holding later entries of the same names in upper case, evaluated again")
 			}
 			return
+		}
+		// one map object of the caller's on the shared parsed instance: used, its values rotated among the same keys in
+		// place, used again, restored, used again - each time the result is the one a new map object with the same
+		// content gives (equal inputs, equal result; the object's history does not matter)
+		{
+			live := map[string]string{}
+			var keys []string
+			for key, v := range s.c.Maps[k] {
+				live[key] = v
+				keys = append(keys, key)
+			}
+			sort.Strings(keys)
+			other := mustache.NewMustacheTemplate()
+			if other.SetTemplate(s.c.Text) != nil {
+				return
+			}
+			renderBoth := func(stage string) bool {
+				cp := map[string]string{}
+				for key, v := range live {
+					cp[key] = v
+				}
+				o1, e1 := s.tmpl.EvaluateWithVariables(live)
+				o2, e2 := other.EvaluateWithVariables(cp) // on another instance: nothing else passes through the shared one in between
+				if o1 != o2 || (e1 == nil) != (e2 == nil) {
+					res = evid.F("differs-on-reused-map", "template %q: with the caller's one map object %s (%s) the rendering is %q (%v), with a new map of the same content on a new instance %q (%v)", s.c.Text, stage, sortedMap(live), o1, e1, o2, e2)
+					return false
+				}
+				return true
+			}
+			if !renderBoth("used for the first time") {
+				return
+			}
+			if len(keys) > 0 {
+				first := live[keys[0]]
+				for i := 0; i+1 < len(keys); i++ {
+					live[keys[i]] = live[keys[i+1]]
+				}
+				live[keys[len(keys)-1]] = first + "*"
+				if !renderBoth("after its values were rotated among the keys in place") {
+					return
+				}
+				for key, v := range s.c.Maps[k] {
+					live[key] = v
+				}
+				if !renderBoth("after its first values were written back") {
+					return
+				}
+			}
 		}
 		t2 := mustache.NewMustacheTemplate()
 		if t2.SetTemplate(s.c.Text) != nil {
